@@ -60,9 +60,9 @@ func (*c03Prop) Components() map[string]interface{} {
 
 func (*c03Prop) Plans(tier string) []Plan {
 	if tier == "quick" {
-		return []Plan{{Name: "dag", Workers: 12, Runs: 5000, MaxTime: 40e9, Size: 14}, {Name: "shared-consumers", Variant: 1, Workers: 4, Runs: 5000, MaxTime: 40e9, Size: 14}}
+		return []Plan{{Name: "dag", Workers: 12, Runs: 40000, MaxTime: 45e9, Size: 14}, {Name: "shared-consumers", Variant: 1, Workers: 4, Runs: 40000, MaxTime: 45e9, Size: 14}}
 	}
-	return []Plan{{Name: "dag", Workers: 12, Runs: 150000, MaxTime: 420e9, Size: 24}, {Name: "shared-consumers", Variant: 1, Workers: 4, Runs: 150000, MaxTime: 420e9, Size: 20}}
+	return []Plan{{Name: "dag", Workers: 12, Runs: 4000000, MaxTime: 600e9, Size: 24}, {Name: "dag-small", Workers: 4, Runs: 4000000, MaxTime: 300e9, Size: 8}, {Name: "shared-consumers", Variant: 1, Workers: 4, Runs: 4000000, MaxTime: 600e9, Size: 20}}
 }
 
 func randPerm(r *Rand, n int) []int {
